@@ -99,19 +99,19 @@ var nondetPkgs = map[string]string{
 }
 
 var nondetFuncs = map[string]string{
-	"time.Now":         "wall clock",
-	"time.Since":       "wall clock",
-	"time.Until":       "wall clock",
-	"os.Getenv":        "environment",
-	"os.LookupEnv":     "environment",
-	"os.Hostname":      "environment",
-	"os.Getpid":        "environment",
-	"runtime.NumCPU":   "environment",
-	"os.ReadFile":      "file system",
-	"os.Open":          "file system",
-	"net.LookupHost":   "network",
-	"time.NewTimer":    "wall clock",
-	"time.After":       "wall clock",
+	"time.Now":       "wall clock",
+	"time.Since":     "wall clock",
+	"time.Until":     "wall clock",
+	"os.Getenv":      "environment",
+	"os.LookupEnv":   "environment",
+	"os.Hostname":    "environment",
+	"os.Getpid":      "environment",
+	"runtime.NumCPU": "environment",
+	"os.ReadFile":    "file system",
+	"os.Open":        "file system",
+	"net.LookupHost": "network",
+	"time.NewTimer":  "wall clock",
+	"time.After":     "wall clock",
 }
 
 func ruleR06a(h *H) {
@@ -237,8 +237,8 @@ func ruleR06c(h *H, rule string) {
 		name := "ProcessWrite arguments in " + ir.FuncName(ir.Outermost(s.Fn))
 		off, ts, cb := argOf(s.Call.Common(), 1), argOf(s.Call.Common(), 2), argOf(s.Call.Common(), 3)
 		cbs = append(cbs, ir.Canon(cb))
-		if worker != nil && ir.Outermost(s.Fn) == worker && app != nil {
-			ok := ir.SameValue(off, app.Offset) && ir.SameValue(ts, app.Stamp)
+		if worker != nil && regionRoot(s.Fn) == worker && app != nil {
+			ok := ir.CanonX(off) == ir.CanonX(app.Offset) && ir.CanonX(ts) == ir.CanonX(app.Stamp)
 			h.Verdict(ok, rule, name, h.pos(s.Call), "offset and timestamp are the values placed in the appended LogEntry",
 				fmt.Sprintf("applies with offset %s / timestamp %s, but the log entry carries %s / %s: replicas replaying the log would apply different values", ir.Describe(off), ir.Describe(ts), ir.Describe(app.Offset), ir.Describe(app.Stamp)))
 			continue
@@ -333,36 +333,39 @@ func ruleR06dInto(h *H, rule string, withRollback bool) {
 		}
 		// loads of the counter whose value is persisted
 		n := 0
-		ir.Instrs(fn, func(in ssa.Instruction) {
-			c, ok := in.(*ssa.Call)
-			if !ok {
-				return
-			}
-			if _, isLoad := isAtomicCallOnField(c, "Load", "server/kv", dbt, "versionIdTracker"); !isLoad {
-				return
-			}
-			// only reads whose value is persisted (handed to a call that reaches WriteBatch.Put)
-			persisted := false
-			if c.Referrers() != nil {
-				for _, r := range *c.Referrers() {
-					if ci, isCall := r.(ssa.CallInstruction); isCall && h.P.CallStaticallyReaches(ci, h.P.MatchPred(ir.Callee{Pkg: "server/kv", Recv: "WriteBatch", Name: "Put"})) {
-						persisted = true
+		for _, hf := range helperFuncs(fn) {
+			ir.Instrs(hf, func(in ssa.Instruction) {
+				c, ok := in.(*ssa.Call)
+				if !ok {
+					return
+				}
+				if _, isLoad := isAtomicCallOnField(c, "Load", "server/kv", dbt, "versionIdTracker"); !isLoad {
+					return
+				}
+				// only reads whose value is persisted (handed to a call that reaches WriteBatch.Put)
+				persisted := false
+				if c.Referrers() != nil {
+					for _, r := range *c.Referrers() {
+						if ci, isCall := r.(ssa.CallInstruction); isCall && h.P.CallStaticallyReaches(ci, h.P.MatchPred(ir.Callee{Pkg: "server/kv", Recv: "WriteBatch", Name: "Put"})) {
+							persisted = true
+						}
 					}
 				}
-			}
-			if !persisted {
-				return
-			}
-			n++
-			good := true
-			for _, a := range applyCalls {
-				if !ir.Dominates(a, in) {
-					good = false
+				if !persisted {
+					return
 				}
-			}
-			h.Verdict(good, rule, fmt.Sprintf("version counter read #%d in %s", n, ir.FuncName(fn)), h.pos(in), "read after the operations were applied",
-				"the version counter is read before the request is applied: the persisted last-version-id lags behind the ids handed out, a restarted replica re-issues them")
-		})
+				n++
+				good := true
+				at := liftToRoot(fn, in)
+				for _, a := range applyCalls {
+					if at == nil || !ir.Dominates(a, at) {
+						good = false
+					}
+				}
+				h.Verdict(good, rule, fmt.Sprintf("version counter read #%d in %s", n, ir.FuncName(fn)), h.pos(in), "read after the operations were applied",
+					"the version counter is read before the request is applied: the persisted last-version-id lags behind the ids handed out, a restarted replica re-issues them")
+			})
+		}
 		if n == 0 {
 			h.Bad(rule, "version counter persisted in "+ir.FuncName(fn), h.P.Pos(fn.Pos()), "ProcessWrite does not read versionIdTracker: the counter is not persisted with the batch")
 		}
@@ -476,6 +479,21 @@ func ruleR06e(h *H) {
 			})
 			h.Verdict(ok, rule, name, h.pos(w.Instr), "offset of the entry that was just applied successfully", why)
 		default:
+			if call, res := helperSuccessResults(v); call != nil && len(res) > 0 {
+				ok, why, _ := ir.SuccessDominated(call, w.Instr)
+				for _, r := range res {
+					rv := ir.Canon(r.V)
+					if !isExtractOf(h, rv, dbReadCommit) {
+						ok, why = false, "inside "+describeCallee(call.Common())+" the value "+ir.Describe(r.V)+" is handed out"
+						continue
+					}
+					if sd, w2, _ := ir.SuccessDominated(rv.(*ssa.Extract).Tuple.(*ssa.Call), r.Ret); !sd {
+						ok, why = false, "inside "+describeCallee(call.Common())+": "+w2
+					}
+				}
+				h.Verdict(ok, rule, name, h.pos(w.Instr), "from the successful result of "+describeCallee(call.Common())+", which hands out a successful DB.ReadCommitOffset", "the applied commit offset does not come from the installed DB: "+why)
+				continue
+			}
 			h.Bad(rule, name, h.pos(w.Instr), "the applied commit offset is assigned from "+ir.Describe(w.Val))
 		}
 	}
